@@ -17,14 +17,29 @@ from ..absint import Interp, Reject
 TQ = "cohdl/_core/_type_qualifier.py"
 
 
-class _Slice:
-    def __init__(self, start, stop, base_offset=None):
-        self.start, self.stop, self.base_offset = start, stop, list(base_offset or [])
+class _Ref:
+    """a reference-spec entry; its fields are whatever the source's own __init__ stores (interpreted), so that list
+    sharing between entries is modelled faithfully"""
+
+    def __init__(self, kind):
+        self.kind = kind
 
 
-class _Offset:
-    def __init__(self, offset, base_offset=None):
-        self.offset, self.base_offset = offset, list(base_offset or [])
+class _Ctor:
+    def __init__(self, kind):
+        self.kind = kind
+
+    def __call__(self, *args, **kwargs):
+        obj = _Ref(self.kind)
+        Interp(_MOD, _prims(_MOD)).call_function(f"{self.kind}.__init__", obj, *args, **kwargs)
+        return obj
+
+
+_SLICE, _OFFSET = _Ctor("Slice"), _Ctor("Offset")
+
+
+def _Slice(start, stop, base_offset=None):
+    return _SLICE(start, stop, base_offset)
 
 
 class _Vec:
@@ -68,26 +83,34 @@ class _View:
         self._value, self._ref_spec, self._root = value, list(ref_spec), root
         self.qualifier = _Qual()
 
-    def __getitem__(self, k):  # recursion of the interpreted method on its own result (self.__getitem__(..))
-        raise AnalysisError("view model: unexpected direct subscript")
+    def __getitem__(self, k):  # `self[...]` inside an interpreted method: the interpreted __getitem__ again
+        return Interp(_MOD, _prims(_MOD)).call_function("TypeQualifier.__getitem__", self, k)
+
+
+_MOD = None
 
 
 def resolved(view):
-    """absolute positions addressed by the LAST reference of the view (constant offsets add up)"""
+    """absolute positions addressed by the LAST reference of the view, resolved the way the back end does it: the
+    reference's own simplify() method (interpreted from the source, IN PLACE - shared base_offset lists or a wrong
+    fold show up as wrong positions of this or of a sibling reference)"""
     if not view._ref_spec:
         return None
     r = view._ref_spec[-1]
-    base = sum(r.base_offset)
-    if isinstance(r, _Slice):
-        return list(range(r.stop + base, r.start + base + 1))
-    return [r.offset + base]
+    q = "Slice.simplify" if r.kind == "Slice" else "Offset.simplify"
+    Interp(_MOD, _prims(_MOD)).call_function(q, r)
+    if r.base_offset:
+        raise Reject(f"constant base offsets left after simplify: {r.base_offset}")
+    if r.kind == "Slice":
+        return list(range(r.stop, r.start + 1))
+    return [r.offset]
 
 
 def _prims(mod):
     def isinst(v, t):
         ts = t if isinstance(t, tuple) else (t,)
         for x in ts:
-            if x is _Slice and isinstance(v, _Slice):
+            if isinstance(x, _Ctor) and isinstance(v, _Ref) and v.kind == x.kind:
                 return True
             if x is slice and isinstance(v, slice):
                 return True
@@ -99,7 +122,7 @@ def _prims(mod):
                 return True
         return False
 
-    return {"isinstance": isinst, "Slice": _Slice, "Offset": _Offset, "slice": slice, "int": int, "tuple": tuple, "list": list,
+    return {"isinstance": isinst, "Slice": _SLICE, "Offset": _OFFSET, "slice": slice, "int": int, "tuple": tuple, "list": list,
             "TypeQualifier": "TypeQualifier", "type": lambda x: type(x), "len": len, "enumerate": enumerate,
             "__setattr__": lambda o, k, v: setattr(o, k, v)}
 
@@ -112,7 +135,8 @@ def run_rule(run, rule_id="F-VIEW.offsets"):
         "and __iter__ over all chains of up to 3 slices of a 12-bit root",
         floor=200,
     )
-    mod = run.idx.mod(TQ)
+    global _MOD
+    mod = _MOD = run.idx.mod(TQ)
     gi = mod.func("TypeQualifier.__getitem__")
     it = mod.func("TypeQualifier.__iter__")
     W = run.bound(12, 16)
@@ -141,7 +165,13 @@ def run_rule(run, rule_id="F-VIEW.offsets"):
                     continue
                 ch = chain + ((hi, lo),)
                 exp = v2._value.pos if isinstance(v2._value, _Vec) else None
-                got = resolved(v2)
+                try:
+                    # resolve a structural copy: the view itself is refined further below (children read its base offsets)
+                    r0 = v2._ref_spec[-1]
+                    cp = _View(v2._value, v2._ref_spec[:-1] + [_Slice(r0.start, r0.stop, list(r0.base_offset))], v2._root)
+                    got = resolved(cp)
+                except Reject as e:
+                    got = None
                 n += 1
                 run.ob(isinstance(v2, _View) and got == exp and v2._root is root, "TypeQualifier.__getitem__", file=mod.rel, line=gi.node.lineno,
                        detail="slice-chain " + "".join(f"[{h}:{l}]" for h, l in ch), expected=f"root bits {exp[0]}..{exp[-1]}" if exp else "?", found=f"root bits {got[0]}..{got[-1]}" if got else "no reference", sample=(ch == ((11, 6), (5, 3))))
@@ -161,12 +191,36 @@ def run_rule(run, rule_id="F-VIEW.offsets"):
                 try:
                     elems = list(Interp(mod, _prims(mod)).call_generator("TypeQualifier.__iter__", v2))
                     got_i = [resolved(e)[0] for e in elems]
+                    # resolving is idempotent and does not disturb siblings: a second pass gives the same positions
+                    again = [resolved(e)[0] for e in elems]
+                    if again != got_i:
+                        got_i = f"unstable: {got_i} then {again}"
                 except Reject as ex:
                     got_i = f"rejected {ex}"
                 n += 1
                 run.ob(got_i == v2._value.pos, "TypeQualifier.__iter__", file=mod.rel, line=it.node.lineno, detail="iterate " + "".join(f"[{h}:{l}]" for h, l in ch),
                        expected=f"root bits {v2._value.pos}", found=f"root bits {got_i}", sample=(ch == ((11, 6), (5, 3))))
         frontier = nxt
+    # the part selectors are defined through slicing: lsb/right take the low end, msb/left the high end
+    for chain, view in [((), base)] + frontier[:6]:
+        w = view._value.width
+        pos = view._value.pos
+        for meth, low in (("lsb", True), ("right", True), ("msb", False), ("left", False)):
+            f_ = mod.func(f"TypeQualifier.{meth}")
+            cases = [({}, [pos[0]] if low else [pos[-1]])]
+            for k in sorted({1, w // 2, w} - {0}):
+                cases.append(({"count": k}, pos[:k] if low else pos[w - k:]))
+                cases.append(({"rest": w - k}, pos[:k] if low else pos[w - k:]))
+            for kw, exp in cases:
+                try:
+                    v = Interp(mod, _prims(mod)).call_function(f"TypeQualifier.{meth}", view, **kw)
+                    got = resolved(v) if isinstance(v, _View) else None
+                    # a copy of the last reference is not needed: v is a fresh view
+                except Reject as e:
+                    got = f"rejected: {e}"
+                run.ob(got == exp, f"TypeQualifier.{meth}", file=mod.rel, line=f_.node.lineno,
+                       detail=f"{meth}({', '.join(f'{a}={b}' for a, b in kw.items())}) of " + ("root" if not chain else "".join(f"[{h}:{l}]" for h, l in chain)) + f" w={w}",
+                       expected=f"root bits {exp}", found=f"root bits {got}", sample=False)
     # iteration over the whole object
     elems = list(Interp(mod, _prims(mod)).call_generator("TypeQualifier.__iter__", base))
     run.ob([resolved(e)[0] for e in elems] == list(range(W)), "TypeQualifier.__iter__", file=mod.rel, line=it.node.lineno, detail="iterate root", expected="bits 0..W-1", found=str([resolved(e)[0] for e in elems][:6]))
